@@ -63,6 +63,9 @@ func checkRaw(c *PanConfig) error {
 	re := regexp.MustCompile(`^r\d`)
 	// Names of rules from IPv6.
 	re6 := regexp.MustCompile(`^v6r\d`)
+	if c.Devices == nil {
+		return nil
+	}
 	for _, d := range c.Devices.Entries {
 		for _, v := range d.Vsys {
 			for _, r := range v.Rules {
